@@ -128,9 +128,101 @@ def gen_case(rng):
                 r[1] = False
     elif rng.random() < 0.2:
         rng.choice(reg)[1] = False
+    shared = None
+    if glob and rng.random() < 0.3:
+        used = sorted({c for d in defs for c in d['cons']
+                       if cons[str(c)][3] == 1})
+        if used:
+            shared = rng.choice(used)
+            glob = cons[str(shared)][:3]
     return {'content_hex': content.hex(), 'policy': None, 'defs': defs,
             'reg': [r[0] for r in reg], 'allow': [r[1] for r in reg],
-            'cons': cons, 'global': glob, 'patch': None}
+            'cons': cons, 'global': glob, 'global_shared': shared,
+            'patch': None}
+
+
+def gen_shared_case(rng):
+    """ the same constraint object as file-level constraint and as a
+    search's own constraint, on a file the file-level pass does not
+    position: another search is registered with
+    allow_global_constraints=False, or the file has no readable timestamp """
+    n = rng.choice([2, 3, 5, 8, 12])
+    restricted = rng.random() < 0.55
+    stamps = sorted(T0 + timedelta(hours=rng.randint(-72, 24))
+                    for _ in range(n))
+    lines = []
+    for ts in stamps:
+        body = ' '.join(rng.choice(c01.TOKENS)
+                        for _ in range(rng.choice([1, 2, 3])))
+        if restricted:
+            k = rng.random()
+            line = (ts.strftime(FMT) + ' ' + body) if k < 0.8 else body
+        else:
+            line = rng.choice([body, ts.strftime('%Y-%m-%dT%H:%M:%S ') + body,
+                               ts.strftime('%Y/%m/%d ') + body])
+        lines.append(line.encode())
+    content = b'\n'.join(lines) + b'\n'
+    cur = T0 + timedelta(hours=rng.randint(-20, 20))
+    cons = {'1': [cur.strftime(FMT), 0, rng.choice([6, 12, 24, 36]), 1]}
+
+    def sd(cs, tag, seq=False):
+        return {'patterns': [rng.choice([r'.*(aa|bb|ab)', r'.*', r'.* (\w+)$',
+                                         r'\S+'])],
+                'hint': None, 'store': True, 'tag': tag, 'as_list': False,
+                'cons': cs, 'seq': seq}
+    defs = [sd([1], 't0'), sd([], 't1')]
+    if rng.random() < 0.4:
+        defs.append(sd([1], 'seq2', seq=True))
+    rng.shuffle(defs)
+    allow = [True] * len(defs)
+    if restricted:
+        free = [i for i, d in enumerate(defs) if not d['cons']]
+        allow[rng.choice(free)] = False
+    return {'content_hex': content.hex(), 'policy': None, 'defs': defs,
+            'reg': list(range(len(defs))), 'allow': allow, 'cons': cons,
+            'global': cons['1'][:3], 'global_shared': 1, 'patch': None}
+
+
+def gen_global_case(rng):
+    """ C01: a time-ordered log, every line dated, a file-level constraint
+    whose window starts at one of the lines (so the seek skips a non-empty
+    prefix), unconstrained definitions: line numbers must count from the
+    first line searched """
+    n = rng.choice([2, 3, 4, 6, 9, 14, 20])
+    ts = T0 - timedelta(hours=80)
+    lines, stamps = [], []
+    for _ in range(n):
+        ts += timedelta(minutes=rng.choice([1, 7, 30, 60, 240]),
+                        seconds=rng.choice([0, 0, 1, 30]))
+        stamps.append(ts)
+        body = ' '.join(rng.choice(c01.TOKENS)
+                        for _ in range(rng.choice([0, 1, 2, 3, 4])))
+        lines.append((ts.strftime(FMT) + (' ' + body if body else ''))
+                     .encode())
+    content = b'\n'.join(lines)
+    if rng.random() < 0.85:
+        content += b'\n'
+    k = rng.randrange(n + 1)
+    since = stamps[k] if k < n else stamps[-1] + timedelta(seconds=1)
+    if k and rng.random() < 0.4:
+        since -= timedelta(seconds=1)       # strictly between two lines
+        if since <= stamps[k - 1]:
+            since = stamps[k] if k < n else since
+    hours = rng.choice([1, 24, 48])
+    glob = [(since + timedelta(hours=hours)).strftime(FMT), 0, hours]
+    ndefs = rng.choice([1, 2, 3])
+    defs = []
+    for i in range(ndefs):
+        npat = rng.choice([1, 1, 2])
+        defs.append({'patterns': [rng.choice(PATTERNS7) for _ in range(npat)],
+                     'hint': rng.choice(HINTS7) if rng.random() < 0.2
+                     else None,
+                     'store': rng.random() < 0.85, 'tag': f't{i}',
+                     'as_list': npat > 1, 'cons': [], 'seq': False})
+    return {'content_hex': content.hex(), 'policy': None, 'defs': defs,
+            'reg': list(range(ndefs)), 'allow': [True] * ndefs, 'cons': {},
+            'global': glob, 'global_shared': None, 'patch': None,
+            'expect_pos': sum(1 for t in stamps if t < since)}
 
 
 # ------------------------------------------------------------------ oracle
@@ -231,7 +323,11 @@ def run_impl(case, path, vals):
         current_date=s[0], ts_matcher_cls=matchers[s[3]], days=s[1],
         hours=s[2]) for c, s in case['cons'].items()}
     gc = None
-    if case['global']:
+    if case.get('global_shared'):
+        # the SAME constraint object is the searcher's file-level constraint
+        # and one of the searches' own constraints
+        gc = cobj[case['global_shared']]
+    elif case['global']:
         g = case['global']
         gc = SearchConstraintSearchSince(current_date=g[0],
                                          ts_matcher_cls=matchers[1],
@@ -315,7 +411,7 @@ def coq_case7(case, tables, pids, hids, pos, whole):
             f"{regs}, {'true' if whole else 'false'}))")
 
 
-def evaluate(chk, cases, tag='c07'):
+def evaluate(chk, cases, tag='c07', nontrivial=None):
     work = os.path.join(chk.work, 'files')
     os.makedirs(work, exist_ok=True)
     path = os.path.join(work, f'{tag}.log')
@@ -330,6 +426,11 @@ def evaluate(chk, cases, tag='c07'):
             # the file-level constraint left the file inside a line: C04's
             # subject, the line tables do not apply
             chk.dist('skipped:seek-inside-line-or-seek-raised')
+            continue
+        if case.get('expect_pos') is not None and pos != case['expect_pos'] \
+                and want[0] != -1:
+            # where the file-level seek lands is C04's subject
+            chk.dist('skipped:seek-not-at-first-in-window-line(C04)')
             continue
         restricted = not all(case['allow'])
         whole = restricted or not case['global']
@@ -349,7 +450,11 @@ def evaluate(chk, cases, tag='c07'):
         uni.append(u)
         classify(chk, case, tables, want, pos, restricted, u)
         key = json.dumps(case, sort_keys=True)
-        if key not in seen and gated(case, tables, pos if not whole else 0):
+        if nontrivial is not None:
+            nt = nontrivial(case, tables, pos, want)
+        else:
+            nt = gated(case, tables, pos if not whole else 0)
+        if key not in seen and nt:
             seen.add(key)
             chk.coverage['distinct_nontrivial'] += 1
     try:
@@ -435,6 +540,10 @@ def classify(chk, case, tables, want, pos, restricted, uniform):
     if case['global'] and not restricted:
         chk.dist('seek-skipped-lines' if pos else 'seek-at-start')
     chk.dist('uniform' if uniform else 'heterogeneous')
+    if case.get('global_shared'):
+        chk.dist('shared-constraint-object' +
+                 ('+restricted' if restricted else
+                  '+seek-at-start' if not pos else '+seek-skipped'))
     stamps = []
     for raw in c01.split_lines(bytes.fromhex(case['content_hex'])):
         m = re.match(TS_EXPR, raw.decode())
@@ -469,12 +578,12 @@ def classify(chk, case, tables, want, pos, restricted, uniform):
 
 def fixed_cases():
     """ hand-made shapes that must always be present """
-    def mk(lines, defs, cons, glob=None, allow=None):
+    def mk(lines, defs, cons, glob=None, allow=None, shared=None):
         return {'content_hex': ('\n'.join(lines) + '\n').encode().hex(),
                 'policy': None, 'defs': defs,
                 'reg': list(range(len(defs))),
                 'allow': allow or [True] * len(defs), 'cons': cons,
-                'global': glob, 'patch': None}
+                'global': glob, 'global_shared': shared, 'patch': None}
 
     def sd(pats, cons, tag, seq=False, hint=None):
         return {'patterns': pats, 'hint': hint, 'store': True, 'tag': tag,
@@ -501,6 +610,19 @@ def fixed_cases():
         mk(sorted(x for x in lines if x[0] == '2' and 'T' not in x),
            [sd(any_aa, [], 't0'), sd(any_aa, [2], 's', seq=True)], c,
            glob=['2022-03-11 00:00:00', 0, 30]),
+        # constraint 1 is ALSO the file-level constraint object; the file is
+        # not positioned: restricted by the neighbour ...
+        mk(lines, [sd(any_aa, [1], 't0'), sd(any_aa, [], 't1')], c,
+           glob=c['1'][:3], allow=[True, False], shared=1),
+        # ... or no readable timestamp at all
+        mk(['aa one', 'bb aa two', '2022-03-10T06:00:00 aa iso'],
+           [sd(any_aa, [1], 't0'), sd(any_aa, [], 't1')], c,
+           glob=c['1'][:3], shared=1),
+        # ... or too many undated lines for the seek, dated ones after
+        mk(['aa undated'] * 520 + ['2022-03-08 00:00:00 aa old',
+                                   '2022-03-10 09:00:00 aa new'],
+           [sd(any_aa, [1], 't0'), sd(any_aa, [], 't1')], c,
+           glob=c['1'][:3], shared=1),
     ]
     return out
 
@@ -518,13 +640,17 @@ def run(chk):
         "objects with windows on the same grid; in 30% of the cases one uses "
         "a second timestamp matcher class -> heterogeneous undecidedness) x "
         "allow_global_constraints on/off x with/without a file-level "
-        "constraint; 7 fixed shapes.  Constraint outcomes tabulated with "
+        "constraint (in 30% of those the SAME constraint object is also a "
+        "search's own constraint; plus a family where that is so and the "
+        "file is not positioned: restricted by a neighbour, or without "
+        "readable timestamps); 10 fixed shapes.  Constraint outcomes tabulated with "
         "plain re + datetime.  Each case: real FileSearcher.run() vs Coq "
         "model; vs Coq spec when undecidedness is uniform.  Non-trivial = a "
         "constrained definition has a matching line before its activation "
         "line and one from it on")
     n = 700 if chk.quick else 5000
-    cases = fixed_cases() + [gen_case(rng) for _ in range(n)]
+    cases = fixed_cases() + [gen_case(rng) for _ in range(n)] + \
+        [gen_shared_case(rng) for _ in range(60 if chk.quick else 600)]
     done = evaluate(chk, cases, 'c07')
     for case, want in done[:3]:
         chk.sample({'case': case, 'implementation': c01.brief(want, 600)})
